@@ -220,10 +220,30 @@ def supplied_case(acc, total, engine_name):
             if not abs(s - total) <= 1e-9 * total:
                 fails.append('datavector sums to %.12g' % s)
         elif engine_name == 'Local':
-            eng = LocalInference(dom, iters=3, marginal_oracle='convex')
-            eng._setup(ms, total)
-            if eng.model.total != total:
-                fails.append('LocalInference model.total=%r, supplied %r' % (eng.model.total, total))
+            from mbi import RegionGraph, FactorGraph
+            cliques = [m_[3] for m_ in ms]
+            oracles = [('convex', lambda: 'convex'), ('approx', lambda: 'approx'), ('pairwise', lambda: 'pairwise'),   # 'pairwise-convex' needs cvxopt, which is not installed
+                       # a caller-built oracle object (constructed with its own default / different total) is re-targeted to the call's total
+                       ('RegionGraph object', lambda: RegionGraph(dom, cliques, convex=True, iters=1)),
+                       ('RegionGraph object built with total 3', lambda: RegionGraph(dom, cliques, 3.0, convex=False, iters=1)),
+                       ('FactorGraph object', lambda: FactorGraph(dom, cliques, convex=False, iters=1))]
+            for oname, mk in oracles:
+                oracle = mk()
+                if not isinstance(oracle, str):
+                    from mbi import CliqueVector
+                    oracle.potentials = CliqueVector.zeros(dom, oracle.cliques)
+                eng = LocalInference(dom, iters=3, marginal_oracle=oracle)
+                model = eng.estimate(ms, total=total)
+                if model.total != total:
+                    fails.append('LocalInference(%s) model.total=%r, supplied %r' % (oname, model.total, total))
+                sums = {}
+                for cl in model.cliques:
+                    sums['marginals[%r]' % (cl,)] = float(np.sum(model.marginals[cl].values))
+                for t in [('A',), ('B',), ('A', 'B'), ('B', 'A')]:
+                    sums['project(%r)' % (t,)] = float(np.sum(model.project(t).datavector()))
+                bad = {k: v for k, v in sums.items() if not abs(v - total) <= 1e-9 * total}
+                if bad:
+                    fails.append('LocalInference(%s): supplied total %r but answers sum to %r' % (oname, total, bad))
         else:
             pub = Dataset(pd.DataFrame([[0, 0], [1, 2], [2, 3], [1, 1], [0, 3]], columns=attrs), dom)
             est = PublicInference(pub).estimate(ms, total=total)
